@@ -1,6 +1,7 @@
 package checks
 
 import (
+	webp "github.com/deepteams/webp"
 	"bytes"
 	"fmt"
 	"image"
@@ -302,6 +303,10 @@ func animOne(c *ev.Ctx, cs ev.Case, lossyAlpha bool) {
 			h.Opts.Lossless, h.Opts.AllowMixed = true, true
 		}
 	}
+	rawTail := !lossyAlpha && cs.Idx%8 == 5
+	if rawTail {
+		h.Inputs, h.Canvases, h.Durations, h.Steps = h.Inputs[:1], h.Canvases[:1], h.Durations[:1], h.Steps[:1]
+	}
 	cs.Desc = fmt.Sprintf("canvas %dx%d %v opts=%+v", h.CW, h.CH, h.Steps, h.Opts)
 	var buf bytes.Buffer
 	opts := h.Opts
@@ -311,6 +316,45 @@ func animOne(c *ev.Ctx, cs ev.Case, lossyAlpha bool) {
 			c.Violate(cs, "addframe-error", nil, fmt.Sprintf("frame %d: %v", i, err), nil)
 			return
 		}
+	}
+	// one picture through AddFrame followed by pre-encoded frames through AddRawFrame: the first frame is a
+	// full-canvas key frame, so what the raw frames must look like on the canvas follows from the container's
+	// compositing rules alone (no mixing of raw frames with later optimised frames, whose meaning is not documented)
+	if rawTail {
+		model := []refanim.Frame{{X: 0, Y: 0, W: h.CW, H: h.CH, Pix: img.Tight(h.Canvases[0])}}
+		for k := 0; k < 1+r.Intn(3); k++ {
+			fw, fh := 1+r.Intn(h.CW), 1+r.Intn(h.CH)
+			ox, oy := 2*r.Intn((h.CW-fw)/2+1), 2*r.Intn((h.CH-fh)/2+1)
+			m := img.Gen(r, img.Pick(r, img.Classes), pickS(r, "opaque", "binary", "gradient", "blocks"), fw, fh)
+			lo := webp.DefaultOptions()
+			lo.Lossless, lo.Exact = true, true
+			file, err := encode(m, lo)
+			bs := riffChunks(file)["VP8L"]
+			if err != nil || bs == nil {
+				c.Fatal("cannot build a raw frame: %v", err)
+				return
+			}
+			blend, dispose := r.Intn(2) == 0, r.Intn(3) == 0
+			bm, dm := animation.BlendNone, animation.DisposeNone
+			if blend {
+				bm = animation.BlendAlpha
+			}
+			if dispose {
+				dm = animation.DisposeBackground
+			}
+			dur := 1 + r.Intn(500)
+			if err := e.AddRawFrame(bs, time.Duration(dur)*time.Millisecond, ox, oy, bm, dm); err != nil {
+				c.Violate(cs, "addrawframe-error", nil, fmt.Sprintf("raw frame %d (%dx%d at %d,%d): %v", k, fw, fh, ox, oy, err), nil)
+				return
+			}
+			model = append(model, refanim.Frame{X: ox, Y: oy, W: fw, H: fh, Pix: img.Tight(m), Blend: blend, Dispose: dispose})
+			h.Steps = append(h.Steps, fmt.Sprintf("raw[%dx%d@%d,%d blend=%v dispose=%v]", fw, fh, ox, oy, blend, dispose))
+			h.Durations = append(h.Durations, dur)
+		}
+		for _, cv := range refanim.Play(h.CW, h.CH, model)[1:] {
+			h.Canvases = append(h.Canvases, &image.NRGBA{Pix: cv, Stride: h.CW * 4, Rect: image.Rect(0, 0, h.CW, h.CH)})
+		}
+		cs.Desc = fmt.Sprintf("canvas %dx%d %v opts=%+v", h.CW, h.CH, h.Steps, h.Opts)
 	}
 	if err := e.Close(); err != nil {
 		c.Violate(cs, "close-error", nil, err.Error(), nil)
@@ -420,7 +464,7 @@ func animOne(c *ev.Ctx, cs ev.Case, lossyAlpha bool) {
 		stepKinds[k] = true
 	}
 	ks := ""
-	for _, k := range []string{"initial", "repeat", "speckle", "alpha", "recolour-opaque-only", "semi", "full", "diagonal", "edge-line", "clear", "clear-most", "onepixel", "fade", "rect"} {
+	for _, k := range []string{"raw", "initial", "repeat", "speckle", "alpha", "recolour-opaque-only", "semi", "full", "diagonal", "edge-line", "clear", "clear-most", "onepixel", "fade", "rect"} {
 		if stepKinds[k] {
 			ks += k[:2] + k[len(k)-1:]
 		}
